@@ -18,8 +18,12 @@ structure NState where
 def linKeys : List String := ["a/x", "a/y", "b/x", "b/y", "c/x"]
 
 /-- the names of the objects of complete state `k` (the harness builds the same ones) -/
-def linStateNames (k : Nat) : List String :=
-  if k == 0 then [] else (List.range (k % 3 + 2)).map (fun i => linKeys.getD ((k + i) % 5) "")
+def linStateNames (j : Nat) : List String :=
+  if j == 0 then [] else
+  let v := (j + 1) / 2
+  let n := v % 3 + 2
+  let n := if j % 2 == 0 then (n + 1) / 2 else n
+  (List.range n).map (fun i => linKeys.getD ((v + i) % 5) "")
 
 def parseItem (s : String) : Option (String × Nat) :=
   match s.splitOn "@" with
@@ -33,10 +37,11 @@ def classifyRead (items : List String) : Except String Nat :=
   | none => .error "unparsable item"
   | some [] => .ok 0
   | some ((n, v) :: rest) =>
+    let names := ((n, v) :: rest).map (·.1)
     if !(rest.all (·.2 == v)) then .error s!"List() returned a mix of versions {items}: a half-applied relist/refilter"
-    else if !sameNames (((n, v) :: rest).map (·.1)) (linStateNames v) then
-      .error s!"List() returned {items}, which is not the complete state {v} {linStateNames v}"
-    else .ok v
+    else if sameNames names (linStateNames (2 * v - 1)) then .ok (2 * v - 1)
+    else if sameNames names (linStateNames (2 * v)) then .ok (2 * v)
+    else .error s!"List() returned {items}, which is neither the complete state of version {v} nor its shrunk successor"
 
 def linLine (st : NState) (e : SExp) : NState × String :=
   match e with
@@ -73,7 +78,7 @@ def linLine (st : NState) (e : SExp) : NState × String :=
         let (c, r, key, v) := g
         !((List.range (n + 1)).any (fun k =>
           (k == 0 || wcall k < r) && (k == n || c < wret (k + 1)) &&
-          (if (linStateNames k).contains key then v == some k else v == none))))
+          (if (linStateNames k).contains key then v == some ((k + 1) / 2) else v == none))))
       match early, late, inv, getBad with
       | some r, _, _, _ => (st, s!"reject C15 reader {r.id} saw state {r.k} in [{r.call},{r.ret}] before its write was issued at {wcall r.k}")
       | _, some r, _, _ => (st, s!"reject C15 reader {r.id} still saw state {r.k} in [{r.call},{r.ret}] after write {r.k + 1} had returned at {wret (r.k + 1)}")
